@@ -358,7 +358,7 @@ def gen(ctx):
 
     # (2) random sorted inputs
     rng = ctx.sub("structured")
-    nrand = 2500 if ctx.thorough else 350
+    nrand = 6000 if ctx.thorough else 350
     structured = []
     for n in range(nrand):
         k = rng.choice([1, 2, 2, 3, 3, 4, 5, 6, 7, 8])
@@ -387,7 +387,7 @@ def gen(ctx):
 
     # (3) malformed stream
     rng = ctx.sub("malformed")
-    nmal = 1200 if ctx.thorough else 250
+    nmal = 2500 if ctx.thorough else 250
     for n in range(nmal):
         base = structured[rng.randrange(len(structured))]
         c = {k: v for k, v in base.items() if k != "tags"}
